@@ -40,7 +40,11 @@ def make_cases(chk):
             return ([list(rng_.choice(pool)) for _ in range(rows)], [rng_.choice([FR(0), FR(1), FR(-1), FR(1, 2)]) for _ in range(rows)])
         tg = nz_term if op == "div" else None
         sa = rng.choice(shp)
-        ta, _ = gen.tree_steps("a", sa, n, m, rng, k=k, dec_gen=dg, term_gen=tg)
+        if k == 2 and fam != 0 and rng.random() < 0.5:
+            # unary / tree-affine operators on an arena with holes and reused slots (live terminals at indices >= len())
+            ta, _ = gen.tree_steps_scrambled("a", sa, n, m, rng, dec_gen=dg, term_gen=tg, p_dummy=0.8)
+        else:
+            ta, _ = gen.tree_steps("a", sa, n, m, rng, k=k, dec_gen=dg, term_gen=tg)
         steps = list(ta)
         meta = {"op": op, "k": k, "in_dim": n, "fam": ["tree-tree", "tree-aff", "neg"][fam], "sa": repr(sa)}
         if fam == 0:
